@@ -41,6 +41,10 @@ enum Op {
     Slice2,
     /// copy_to_bytes(remaining())
     All,
+    /// copy_to_bytes(k) for a k below remaining() (may end inside the header)
+    Bytes(usize),
+    /// get_u8()
+    GetU8,
 }
 
 /// Runs `prog` (then `Chunk` until drained). Returns bytes by offset (None = skipped) and the
@@ -99,6 +103,15 @@ fn consume(id: u64, p: &[u8], prog: &[Op]) -> Result<(Vec<Option<u8>>, Vec<usize
                     let b = e.copy_to_bytes(n);
                     out.extend(b.iter().map(|b| Some(*b)));
                 }
+                Op::Bytes(k) => {
+                    let k = k.min(e.remaining());
+                    let b = e.copy_to_bytes(k);
+                    if b.len() != k {
+                        panic!("copy_to_bytes({k}) returned {} bytes", b.len());
+                    }
+                    out.extend(b.iter().map(|b| Some(*b)));
+                }
+                Op::GetU8 => out.push(Some(e.get_u8())),
             }
         }
         rems.push(e.remaining());
@@ -107,7 +120,7 @@ fn consume(id: u64, p: &[u8], prog: &[Op]) -> Result<(Vec<Option<u8>>, Vec<usize
 }
 
 fn programs(depth: usize) -> Vec<Vec<Op>> {
-    let ops = [Op::Byte, Op::Chunk, Op::Skip(1), Op::Skip(2), Op::Skip(3), Op::Slice2, Op::All];
+    let ops = [Op::Byte, Op::Chunk, Op::Skip(1), Op::Skip(2), Op::Skip(3), Op::Slice2, Op::All, Op::Bytes(1), Op::Bytes(3), Op::GetU8];
     let mut out: Vec<Vec<Op>> = vec![vec![]];
     let mut frontier: Vec<Vec<Op>> = vec![vec![]];
     for _ in 0..depth {
@@ -444,11 +457,11 @@ pub fn run(args: &Args) -> i32 {
     let mut rep = Report::new("C18", args.tier, args.seed, "exploration");
     rep.exhaustive = true;
     let depth = if thorough { 5 } else { 4 };
-    rep.rule = format!("(a) stream ids 4k for all k < 2^16 plus every varint form boundary of k (63/64, 16383/16384, 2^30-1/2^30, 2^60-1) x payload lengths {{0,1,2,7,8,9}} (and 1200/1500 for boundary ids) x every consumption program of depth <= {depth} over 7 Buf operations (all programs for boundary ids, 3 canonical programs for the dense id sweep); (b) decode of all byte strings of <= {} bytes, every form (minimal or padded) of every boundary quarter id with trailing payload, every truncation; (c) DatagramSender/DatagramReader of a real server and client connection over simnet. Oracle refimpl::datagram. Non-trivial = multi-byte varint form or non-empty payload.", if thorough { 3 } else { 2 });
+    rep.rule = format!("(a) stream ids 4k for all k < 2^16 plus every varint form boundary of k (63/64, 16383/16384, 2^30-1/2^30, 2^60-1) x payload lengths {{0,1,2,7,8,9}} (and 1200/1500 for boundary ids) x every consumption program of depth <= {depth} over 10 Buf operations (byte, chunk, advance 1/2/3, copy_to_slice, copy_to_bytes of everything / 1 / 3 bytes, get_u8) (all programs for boundary ids, 3 canonical programs for the dense id sweep); (b) decode of all byte strings of <= {} bytes, every form (minimal or padded) of every boundary quarter id with trailing payload, every truncation; (c) DatagramSender/DatagramReader of a real server and client connection over simnet. Oracle refimpl::datagram. Non-trivial = multi-byte varint form or non-empty payload.", if thorough { 3 } else { 2 });
     rep.assumptions = vec!["refimpl::datagram transcribes RFC 9297 2.1 (unit-tested)".into(), "payload bytes are position-coded; the codec never branches on payload bytes".into()];
     rep.bound_note = "exhaustive over the stated finite sets".into();
     let progs_all = programs(depth);
-    let progs_few: Vec<Vec<Op>> = vec![vec![], vec![Op::All], vec![Op::Byte, Op::Byte, Op::Byte, Op::Byte]];
+    let progs_few: Vec<Vec<Op>> = vec![vec![], vec![Op::All], vec![Op::Byte, Op::Byte, Op::Byte, Op::Byte], vec![Op::Bytes(1)], vec![Op::GetU8, Op::Bytes(3)]];
     let top = (1u64 << 60) - 1;
     let boundary_k: Vec<u64> = vec![0, 1, 2, 62, 63, 64, 65, 16382, 16383, 16384, 16385, (1 << 30) - 1, 1 << 30, (1 << 30) + 1, top - 1, top];
     // dense sweep
